@@ -20,6 +20,10 @@ type Cell struct {
 	Lo, Hi int64
 	// Any: any non-null value of kind V.K is accepted (interpolation between ambiguous neighbours).
 	Any bool
+	// OrNull: null is accepted as well as the value. Used for COUNT() in a statement with several
+	// calls at a position where only another call has data: the documentation says that COUNT()
+	// reports 0 for intervals without data, but not what it reports where it has no row of its own.
+	OrNull bool
 }
 
 // Row is one expected output row.
@@ -45,6 +49,13 @@ type Result struct {
 	Q       *Query
 	Columns []string
 	Series  []Series // ascending by dimension values (dimension names sorted)
+
+	// Statistics of a statement with several calls (for generator-distribution reports):
+	// AbsentCalls counts (series, call) pairs where the call has no point at all in the series;
+	// Misaligned counts rows in which a call that has points in the series has no row of its own
+	// while another call has one (only possible under fill(none)).
+	AbsentCalls int
+	Misaligned  int
 }
 
 type tri int
@@ -277,12 +288,26 @@ func Eval(d *Data, q *Query) (*Result, error) {
 		hi = math.MaxInt64
 	}
 	call := -1
-	for i, p := range q.Proj {
-		if p.Kind == ProjCall {
-			if call >= 0 {
-				return nil, fmt.Errorf("refql: more than one call")
+	calls := q.Calls()
+	if len(calls) > 0 {
+		call = calls[0]
+	}
+	var kinds map[string]Kind
+	if len(calls) > 1 {
+		// several calls: the SELECT list holds nothing else (calls cannot be mixed with fields or tags)
+		if len(calls) != len(q.Proj) {
+			return nil, fmt.Errorf("refql: several calls mixed with fields or tags")
+		}
+		kinds = map[string]Kind{}
+		for i := range d.Points {
+			for f, v := range d.Points[i].Fields {
+				kinds[f] = v.K
 			}
-			call = i
+		}
+		for _, ci := range calls {
+			if _, ok := kinds[q.Proj[ci].Name]; !ok {
+				return nil, fmt.Errorf("refql: call on field %q that no point has, among several calls, is not modelled", q.Proj[ci].Name)
+			}
 		}
 	}
 	if q.Interval > 0 {
@@ -298,11 +323,15 @@ func Eval(d *Data, q *Query) (*Result, error) {
 	}
 	res := &Result{Q: q, Columns: []string{"time"}}
 	for _, p := range q.Proj {
-		if p.Kind == ProjCall {
-			res.Columns = append(res.Columns, p.Func)
-		} else {
-			res.Columns = append(res.Columns, p.Name)
+		res.Columns = append(res.Columns, p.Column())
+	}
+	seenCol := map[string]bool{}
+	for _, c := range res.Columns {
+		if seenCol[c] {
+			// the documentation does not say how equal column names are told apart
+			return nil, fmt.Errorf("refql: duplicate output column %q (use an alias)", c)
 		}
+		seenCol[c] = true
 	}
 	dims := q.Dims(d)
 
@@ -317,7 +346,14 @@ func Eval(d *Data, q *Query) (*Result, error) {
 			continue
 		}
 		if call >= 0 {
-			if _, ok := p.Fields[q.Proj[call].Name]; !ok {
+			// a point takes part when it has the argument field of (one of) the call(s)
+			any := false
+			for _, ci := range calls {
+				if _, ok := p.Fields[q.Proj[ci].Name]; ok {
+					any = true
+				}
+			}
+			if !any {
 				continue
 			}
 		} else {
@@ -358,8 +394,13 @@ func Eval(d *Data, q *Query) (*Result, error) {
 		var err error
 		if call < 0 {
 			slots = rawSlots(q, g)
+		} else if len(calls) > 1 {
+			slots, err = multiCallSlots(res, calls, kinds, g, lo, hi, hasLo)
+			if err != nil {
+				return nil, err
+			}
 		} else {
-			slots, err = callSlots(q, call, g, lo, hi, hasLo)
+			slots, err = callSlots(q, call, g, lo, hi, hasLo, false)
 			if err != nil {
 				return nil, err
 			}
@@ -566,17 +607,19 @@ func OutputKind(fn string, k Kind) Kind {
 	return k
 }
 
-func callSlots(q *Query, call int, g *group, lo, hi int64, hasLo bool) ([]Slot, error) {
+// callSlots computes the rows of one call over one group. fixedT: the call is not the only one of
+// the statement, so that even a selector does not return the timestamp of the selected point.
+func callSlots(q *Query, call int, g *group, lo, hi int64, hasLo bool, fixedT bool) ([]Slot, error) {
 	fn := q.Proj[call].Func
 	if q.Interval == 0 {
 		// One row per series. An aggregate has no timestamp of its own: the row carries the lower
 		// bound of the queried range, or epoch 0 when there is none. A selector returns the
-		// timestamp of the selected point.
+		// timestamp of the selected point (unless it shares the statement with other calls).
 		t := int64(0)
 		if hasLo {
 			t = lo
 		}
-		rows, err := bucketValue(q, call, g.pts, !isSelector(fn), t)
+		rows, err := bucketValue(q, call, g.pts, fixedT || !isSelector(fn), t)
 		if err != nil {
 			return nil, err
 		}
@@ -740,7 +783,132 @@ func callSlots(q *Query, call int, g *group, lo, hi int64, hasLo bool) ([]Slot, 
 	return slots, nil
 }
 
+// multiCallSlots computes the rows of a statement with several calls over one group: every call
+// is evaluated on its own over the points that have its argument field (exactly as if it were
+// the only call, except that a selector does not return the time of the selected point) and the
+// per-call rows are joined on their timestamps. A call that has no row at a timestamp where
+// another call has one shows null there (the fill value under fill(<number>); for COUNT() 0 or
+// null). With fill(none) a time interval is reported when at least one call has data in it.
+func multiCallSlots(res *Result, calls []int, kinds map[string]Kind, g *group, lo, hi int64, hasLo bool) ([]Slot, error) {
+	q := res.Q
+	per := make([][]Slot, len(calls))
+	absent := make([]Cell, len(calls))
+	for k, ci := range calls {
+		pr := q.Proj[ci]
+		qi := *q
+		qi.Proj = []Proj{pr}
+		gi := &group{tags: g.tags}
+		for _, p := range g.pts {
+			if _, ok := p.Fields[pr.Name]; ok {
+				gi.pts = append(gi.pts, p)
+			}
+		}
+		// what the call's column holds where the call has no row of its own
+		absent[k] = Cell{Null: true}
+		outKind := OutputKind(pr.Func, kinds[pr.Name])
+		switch {
+		case q.Interval > 0 && q.Fill == FillValue:
+			switch outKind {
+			case Float:
+				absent[k] = Cell{V: Value{K: Float, F: float64(q.FillInt)}}
+			case Integer:
+				absent[k] = Cell{V: Value{K: Integer, I: q.FillInt}}
+			case Unsigned:
+				if q.FillInt < 0 {
+					return nil, fmt.Errorf("refql: negative fill for unsigned")
+				}
+				absent[k] = Cell{V: Value{K: Unsigned, U: uint64(q.FillInt)}}
+			default:
+				return nil, fmt.Errorf("refql: fill(value) for %v output", outKind)
+			}
+		case q.Interval > 0 && q.Fill == FillLinear:
+			if !isNumeric(outKind) {
+				return nil, fmt.Errorf("refql: fill(linear) for %v output", outKind)
+			}
+		case q.Interval > 0 && q.Fill == FillPrevious:
+		case pr.Func == "count":
+			absent[k] = Cell{V: Value{K: Integer, I: 0}, OrNull: true}
+		}
+		if len(gi.pts) == 0 {
+			res.AbsentCalls++
+			continue
+		}
+		sl, err := callSlots(&qi, 0, gi, lo, hi, hasLo, true)
+		if err != nil {
+			return nil, err
+		}
+		per[k] = sl
+	}
+	// join on the timestamp (all alternatives of a slot carry the same one)
+	var times []int64
+	seen := map[int64]bool{}
+	at := make([]map[int64]*Slot, len(calls))
+	for k := range per {
+		at[k] = map[int64]*Slot{}
+		for i := range per[k] {
+			t := per[k][i].Alts[0].T
+			for _, a := range per[k][i].Alts {
+				if a.T != t {
+					return nil, fmt.Errorf("refql: alternatives with different timestamps in a statement with several calls")
+				}
+			}
+			if at[k][t] != nil {
+				return nil, fmt.Errorf("refql: two rows of one call at the same timestamp")
+			}
+			at[k][t] = &per[k][i]
+			if !seen[t] {
+				seen[t] = true
+				times = append(times, t)
+			}
+		}
+	}
+	sort.Slice(times, func(i, j int) bool { return times[i] < times[j] })
+	out := make([]Slot, 0, len(times))
+	for _, t := range times {
+		rows := []Row{{T: t}}
+		gap := false
+		for k := range calls {
+			var cells []Cell
+			if s := at[k][t]; s != nil {
+				for _, a := range s.Alts {
+					cells = append(cells, a.Cells[0])
+				}
+			} else {
+				cells = []Cell{absent[k]}
+				if len(per[k]) > 0 {
+					gap = true
+				}
+			}
+			var next []Row
+			for _, r := range rows {
+				for _, c := range cells {
+					nr := Row{T: t, Cells: append(append([]Cell(nil), r.Cells...), c)}
+					next = append(next, nr)
+				}
+			}
+			rows = next
+		}
+		var alts []Row
+		dedup := map[string]bool{}
+		for _, r := range rows {
+			if k := rowKey(r); !dedup[k] {
+				dedup[k] = true
+				alts = append(alts, r)
+			}
+		}
+		out = append(out, Slot{Alts: alts})
+		if gap {
+			res.Misaligned++
+		}
+	}
+	return out, nil
+}
+
 func cellKey(c Cell) string {
+	if c.OrNull {
+		c.OrNull = false
+		return "ornull:" + cellKey(c)
+	}
 	switch {
 	case c.Null:
 		return "null"
